@@ -1613,7 +1613,9 @@ fn gen_c05(o: &mut Out, r: &mut Rng, d: &GDict, tier: &str) {
         let ks: Vec<usize> = if thorough || n <= 120 { (0..n).collect() } else { (0..40).map(|_| r.below(n as u64) as usize).collect() };
         for k in ks {
             // an error, `Ok(0)`, or an `Interrupted` error (the call fails all the same: what was accepted stays accepted)
-            let end = ["f", "a0", "i"][k % 3];
+            // (`F<k>`: fails once k octets are on the stream in total, however the writer under test slices its calls)
+            let fk = format!("F{}", k);
+            let end = [fk.as_str(), "a0", "i"][k % 3];
             let pre = match (k, k % 3) {
                 (0, _) => String::new(),
                 (_, 0) => format!("a{},", k),
@@ -1636,7 +1638,8 @@ fn gen_c05(o: &mut Out, r: &mut Rng, d: &GDict, tier: &str) {
         o.line(&format!("senc {}", vec!["a1000"; total / 1000 + 1].join(",")));
         o.line(&format!("senc {}", vec!["a16383"; total / 16383 + 1].join(",")));
         o.line(&format!("senc a16384,a1,a{}", total));
-        o.line(&format!("senc a16384,a{},f", total - 16384 - 5));
+        o.line(&format!("senc a16384,F{}", total - 5));
+        o.line(&format!("senc F{}", 16384 + 7));
         o.line("senc -");
         o.line("ench");
         for k in [0usize, 16383, 16384, 16385, total - 1, total] {
@@ -2014,7 +2017,7 @@ fn gen_c06(o: &mut Out, r: &mut Rng, d: &GDict, tier: &str) {
         // message's encoding, nothing left over from the attempt before
         for _ in 0..3 {
             let k = r.below(total as u64) as usize;
-            o.line(&format!("senc {}{}", if k == 0 { String::new() } else { format!("a{},", k) }, ["f", "a0"][k % 2]));
+            o.line(&format!("senc {}", if k % 2 == 0 { format!("F{}", k) } else if k == 0 { "a0".to_string() } else { format!("a{},a0", k) }));
             o.line("senc -");
             o.line(&format!("senc {}", random_wscript(r, total)));
         }
@@ -2958,10 +2961,10 @@ fn gen_ctcp(o: &mut Out, r: &mut Rng, tier: &str, cuts: bool) {
     }
 }
 
-fn gen_c12(o: &mut Out, r: &mut Rng, d: &GDict, tier: &str) {
+fn gen_c12(o: &mut Out, r: &mut Rng, d: &GDict, tier: &str, max_corpora: usize) {
     let thorough = tier == "thorough";
     let mut uid = 9000u32;
-    let n_corpus = if thorough { 160 } else { 8 };
+    let n_corpus = (if thorough { 160 } else { 8 }).min(max_corpora);
     for ci in 0..n_corpus {
         let n = 1 + (ci % 4);
         let ids: Vec<u32> = (0..n).map(|i| 100 + 7 * i as u32 + (ci as u32) * 1000).collect();
@@ -3834,6 +3837,7 @@ pub fn generate(family: &str, seed: u64, tier: &str, extra: &[String], w: &mut d
                     }
                     o.case(&format!("late first occurrence k={}", k));
                     o.line(&format!("decode {}", hex(&m.encode(&mut None))));
+                    o.line("dump");
                     for c in [264u32, 268, 263, 296, 14, 1] {
                         o.line(&format!("get {}", c));
                     }
@@ -3997,6 +4001,9 @@ pub fn generate(family: &str, seed: u64, tier: &str, extra: &[String], w: &mut d
             gen_badsend(&mut o, &mut r, &d0, tier, &mut uid);
             gen_clim(&mut o, &mut r, &d0, tier, &mut uid);
             gen_backpressure(&mut o, &mut r, &d0, tier, &mut uid);
+            // what a future may hold when the peer misbehaves (answers cut short, messages nobody asked for, corrupted
+            // and unmatched answers): the families of C12, on a few corpora
+            gen_c12(&mut o, &mut r, &d0, tier, if thorough { 12 } else { 2 });
             gen_ctcp(&mut o, &mut r, tier, false);
         }
         "c12" => {
@@ -4005,7 +4012,7 @@ pub fn generate(family: &str, seed: u64, tier: &str, extra: &[String], w: &mut d
                 o.case(&format!("client switch end={}", end));
                 o.line(&format!("cliswitch {}", end));
             }
-            gen_c12(&mut o, &mut r, &d0, tier);
+            gen_c12(&mut o, &mut r, &d0, tier, usize::MAX);
             let mut uid = 800000u32;
             gen_reuse(&mut o, &mut r, &d0, tier, &mut uid);
             gen_badsend(&mut o, &mut r, &d0, tier, &mut uid);
